@@ -212,7 +212,7 @@ class Classifier:
                     stub = src(ev[k1].args[0])
                     self.consumed |= {j, k1, k2, k3} | set(cstar)
                     f = Form('skip', self.fn, arm, e, L, [ev[j], ev[k2]], ck, cargs, stub,
-                             [ev[c] for c in cstar], tuple(conds.items()), site=key)
+                             [ev[c] for c in cstar], tuple(conds.items()), site=key, events_idx=(i, k3))
                     self.forms.append(f)
                     return
             # branch
@@ -226,7 +226,8 @@ class Classifier:
             return
         # speculative head
         if spec is not None:
-            f = Form('spec', self.fn, arm, e, L, [], guard_conds=tuple(conds.items()), site=key)
+            f = Form('spec', self.fn, arm, e, L, [], guard_conds=tuple(conds.items()), site=key,
+                     events_idx=(i, i))
             f.stub = spec
             # halt-class instructions owned by the head: between the head and Label(L)
             owned = []
